@@ -28,6 +28,8 @@ type pairRows struct {
 	hasDel   bool
 	insAtEnd bool
 	multi    bool
+	// an insertion carried (identically) by two overlapping records of the query
+	sharedIns bool
 }
 
 // pairModel builds the expected (reference row, query row) of one query; ok=false = outside the domain.
@@ -47,6 +49,7 @@ func pairModel(g samGroup, ref string) (pr pairRows, ok bool) {
 	for i := range owner {
 		owner[i] = -1
 	}
+	carriers := make([][]int, L+1) // the records that carry the insertion at slot p
 	type span struct{ a, b int } // reference positions (1-based inclusive) a record spans, 0 if none
 	spans := make([]span, len(g.recs))
 	for ri, rec := range g.recs {
@@ -74,10 +77,18 @@ func pairModel(g samGroup, ref string) (pr pairRows, ok bool) {
 				}
 				s := rec.Seq[qi : qi+op.Len]
 				if owner[p] >= 0 {
-					return pr, false // two insertions at one anchor: outside "non-conflicting"
+					if owner[p] == ri || ins[p] != s {
+						return pr, false // two different insertions at one anchor: outside "non-conflicting"
+					}
+					// the same insertion carried by a second, overlapping record: still one insertion of the query
+					pr.sharedIns = true
+					carriers[p] = append(carriers[p], ri)
+					qi += op.Len
+					break
 				}
 				ins[p] += s
 				owner[p] = ri
+				carriers[p] = append(carriers[p], ri)
 				qi += op.Len
 				pr.hasIns = true
 				// is this the last reference-consuming point of the record?
@@ -96,13 +107,19 @@ func pairModel(g samGroup, ref string) (pr pairRows, ok bool) {
 		}
 		spans[ri] = span{first, last}
 	}
-	// an insertion anchor must be covered by exactly one record: no other record may span across the slot
+	// every record that spans across an insertion slot must carry that same insertion (else the records conflict)
 	for p, ri := range owner {
 		if ri < 0 {
 			continue
 		}
 		for rj, sp := range spans {
-			if rj != ri && sp.a != 0 && sp.a <= p && sp.b >= p+1 {
+			carries := false
+			for _, c := range carriers[p] {
+				if c == rj {
+					carries = true
+				}
+			}
+			if !carries && sp.a != 0 && sp.a <= p && sp.b >= p+1 {
 				return pr, false
 			}
 		}
@@ -151,6 +168,9 @@ func cutPair(ref, qry string, s, e int) (string, string) {
 func genC02(r *Rand, tier string, ord int) *Trial {
 	many := r.P(0.06)
 	sp := samSpec{L: r.Range(4, 50), Queries: r.Range(1, 7), MaxRecs: 3, Overlap: r.P(0.3), Ins: 0.08, Del: 0.06, Skip: 0.03, Junk: 0.12, Clip: 0.25, ShortTail: r.P(0.5), InsDisjoint: true, EdgeIns: 0.08}
+	if sp.Overlap && r.P(0.3) {
+		sp.InsDisjoint = false // overlapping records may both carry the (same) insertion of the region they share
+	}
 	kind := "generated"
 	if many {
 		sp.L, sp.Queries, sp.MaxRecs, kind = r.Range(4, 12), r.Range(60, 120), 1, "generated-many"
@@ -286,7 +306,7 @@ func checkC02(t *Trial, ctx *Ctx) *Failure {
 	o := t.Case.Opts
 	want, prs, ok := c02Expected(&sc, o)
 	if !ok {
-		ctx.Discard("outside the domain: conflicting records, shared insertion anchor, or query without aligned base")
+		ctx.Discard("outside the domain: conflicting records (bases, or an insertion that an overlapping record does not carry), or query without aligned base")
 		return nil
 	}
 	region := "single-record"
@@ -301,7 +321,13 @@ func checkC02(t *Trial, ctx *Ctx) *Failure {
 		if pr.insAtEnd {
 			ctx.Probe("insertion_at_record_end", 1)
 		}
-		if pr.multi && pr.hasIns && !o.OmitIns {
+		if pr.sharedIns {
+			ctx.Probe("insertion_shared_by_overlapping_records", 1)
+		}
+		if pr.sharedIns && !o.OmitIns {
+			region = "insertion-shared-by-overlapping-records"
+		} else if region == "insertion-shared-by-overlapping-records" {
+		} else if pr.multi && pr.hasIns && !o.OmitIns {
 			region = "multi-record-with-insertion"
 		} else if pr.multi && region == "single-record" {
 			region = "multi-record"
